@@ -171,6 +171,10 @@ def run_shard(spec, rec):
 
 def replay(w, rec):
     instrument.install(rec, what=("filter_citations",))
+    if "text" not in w["case"] and "markup" not in w["case"]:
+        rec.note("witness recorded by the filter_citations contract without client context: not replayable")
+        return
+    instrument.CONTEXT = {k: w["case"].get(k) for k in ("text", "markup", "steps", "tokenizer")}
     text, cs = _extract.rerun(w["case"])
     for mon, obs in M.order(cs):
         rec.violation(mon, w["case"], observed=obs)
